@@ -608,3 +608,5 @@ def rules(ctx):
     zero_is_identity(ctx)
     pure_decompose(ctx)
     product_units(ctx)
+    from . import common_backend as _Bk
+    _Bk.polar_pair(ctx, "C02.polar", ("ops.py", "decompositions.py"))
